@@ -28,6 +28,20 @@ AC = "msmart.device.AC.device.AirConditioner"
 SIGN_KEY = b"xhdiwjnchekd4d512chdjx5d8e4c394D2D7S"
 
 
+def reported_ip_is_source(ctx, rule: str):
+    """The address a device is reported (and later contacted) under is the address its reply came from - not the address inside the reply.
+    Shared with C18: one device per responding *host* is about that address."""
+    prog = ctx.prog
+    gi = ctx.fn(f"{DISC}._get_device_info")
+    s = summarize(prog, gi)
+    ip_p = gi.params[1]
+    rets = [t for pc, t, n, _ in s.returns if n is not None and t[0] == "dict"]
+    info = {k[1]: v for k, v in rets[0][1] if k[0] == "const"} if len(rets) == 1 else {}
+    ctx.ob(rule, gi.qual, strip(info.get("ip", ("top",))) == ("param", ip_p), "reported ip = the datagram's source address (not the address inside the reply)",
+           func=gi.qual, file=gi.module.rel, construct='"ip": ip', detail={"term": show(info.get("ip", ("top", "?")))[:100]},
+           fail=f"the device is reported with `{show(info.get('ip', ('top', '?')))[:80]}` instead of the address the reply came from")
+
+
 def run(ctx):
     prog = ctx.prog
     ctx.explanation = ("value-flow terms of _get_device_info (which byte range / byte order each reported field is read from, provenance of "
@@ -112,9 +126,7 @@ def run(ctx):
     ctx.ob("C17.a", gi.qual, ty_ok, "appliance type = int(name.split('_')[1], 16)", func=gi.qual, file=file, construct="device_type", detail={"term": show(ty)[:160]},
            fail=f"appliance type is read as `{show(ty)[:120]}`")
     # ---- provenance of ip / version
-    ctx.ob("C17.b", gi.qual, strip(info.get("ip", ("top",))) == ("param", ip_p), "reported ip = the datagram's source address (not the address inside the reply)",
-           func=gi.qual, file=file, construct='"ip": ip', detail={"term": show(info.get("ip", ("top", "?")))[:100]},
-           fail=f"the device is reported with `{show(info.get('ip', ('top', '?')))[:80]}` instead of the address the reply came from")
+    reported_ip_is_source(ctx, "C17.b")
     ctx.ob("C17.b", gi.qual, strip(info.get("version", ("top",))) == ("param", ver_p), "reported version = the detected protocol version", func=gi.qual, file=file,
            construct='"version": version', fail="the reported version is not the detected one")
     ctx.ob("C17.b", gi.qual, set(info) == {"ip", "port", "device_id", "name", "sn", "device_type", "version"}, "the mapping carries exactly ip/port/device_id/name/sn/device_type/version",
